@@ -17,6 +17,9 @@ ASSUMPTIONS = [
     "floats are compared exactly (HDF5 stores float64)",
     "components inside a block are matched by name rather than by position (their sort key depends on derived-shape state at "
     "sort time); assemblies in the core/pool and blocks in an assembly are compared in order",
+    "scalar values assigned as NumPy float32/float64/Python float to one parameter are all float32-representable, so that the "
+    "known C05 finding (a column with unset entries is cast to the type of its first entry) cannot change them; mixed-width "
+    "columns are C05's subject",
     "material internals other than the theoretical-density fraction (which armi restores explicitly) are not compared: armi "
     "rebuilds a default material instance on load and restores composition through the number densities",
 ]
@@ -152,7 +155,10 @@ def _make_value(kind, val):
         types = [int, np.int8, np.int16, np.int32, np.int64, np.uint8, np.uint16, np.uint32]
         return types[val["i"] % len(types)](val["i"] // 8 % 100)
     if kind == "ftyped":
-        return [float, np.float32, np.float64, np.float32][val["i"] % 4](val["f"] if abs(val["f"]) < 1e30 else 1.5)
+        # every drawn value is float32-representable: a column mixing float32 and wider floats with unset entries is cast to the
+        # type of its first entry (known finding of C05, sentinel/column-cast-to-first-entry-type); that shape is left to C05
+        v32 = float(np.float32(val["f"] if abs(val["f"]) < 1e30 else 1.5))
+        return [float, np.float32, np.float64, np.float32][val["i"] % 4](v32)
     if kind == "s":
         return val["s"]
     if kind == "xs":
